@@ -69,6 +69,7 @@ class Contract:
         self.kind = kw.get("kind", "function")  # function | lemma
         self.covers = kw.get("covers", {})
         self.notes = kw.get("notes", "")
+        self.noreturn = kw.get("noreturn", False)   # the contract describes inputs on which the function never returns normally
         self.verified_by = kw.get("verified_by", [])    # for an assumed call-site view: the contracts of the same body that are verified
         self.assumed = kw.get("assumed")        # reason: this contract is used at call sites but cannot be verified against the body (listed as an assumption)
         self.calls_inline = set(kw.get("calls_inline", []))
@@ -1016,6 +1017,7 @@ class ContractSet:
                 P.assume(t.term() if k == 0 else z3.Not(t.term()))
                 P.assumption(f"definition: {c.defines_on_return} :<=> {c.target} returns normally (a deterministic function of its arguments)")
             if k == 0:
+                P.explorer.stats.setdefault("callret", {}).setdefault(c.target, [0, 0])[0] += 1
                 self.havoc_modifies(I, c, sfr, c.modifies)
                 early = set()
                 for n, src in c.ensures.items():
@@ -1081,6 +1083,10 @@ class ContractSet:
                     t = self.eval_clause(I, cur, cur.scenario[c.target], Frame(cur.module, locals={"result": result, **loc}, func="<spec>"))
                     P.assume(t.term())
                     P.assumption(f"scenario hypothesis of {cur.target}: after every {c.target.split('.')[-1]} call: {cur.scenario[c.target]}")
+                # vacuity guard: a callee contract whose normal return contradicts the caller's state at every call site would
+                # silently cut every path through the call (counted here, judged when the target's exploration is complete)
+                if P._check(z3.BoolVal(True)) != "unsat":
+                    P.explorer.stats["callret"][c.target][1] += 1
                 return result
             q = outcomes[k]
             spec = c.raises[q] if isinstance(c.raises[q], dict) else {}
@@ -1106,6 +1112,8 @@ class ContractSet:
                     continue
                 t = self.eval_clause(I, c, src, sfr)
                 P.assume(t.term())
+            if P._check(z3.BoolVal(True)) == "unsat":
+                raise PathEnd(f"exceptional outcome {q} of {c.target} is infeasible here")
             ec = I.class_by_qual(q)
             exc = I.new_exc(ec, [VStr(c=f"raised by contract of {c.target}")])
             raise PyRaise(exc)
